@@ -320,6 +320,11 @@ func (t *Term) step(c byte) {
 				t.unknown(fmt.Sprintf("ESC %c %c", t.inter[0], c))
 			} else {
 				t.errf("bad charset designator %#x", c)
+				if c == 0x1b {
+					// ESC aborts the sequence and starts a new one (ECMA-48), it is not swallowed
+					t.st = sEsc
+					t.seq = append(t.seq[:0], c)
+				}
 			}
 			return
 		}
@@ -339,6 +344,10 @@ func (t *Term) step(c byte) {
 		default:
 			t.errf("bad byte %#x in ESC intermediate sequence", c)
 			t.st = sGround
+			if c == 0x1b {
+				t.st = sEsc
+				t.seq = append(t.seq[:0], c)
+			}
 		}
 	case sCsiParam:
 		t.seq = append(t.seq, c)
